@@ -6,8 +6,8 @@
 # before the tree under test became configurable.)
 set -u
 P=$(readlink -f "$1"); shift
-WT=/tmp/wt/mut
-cd /verif
+WT=${SEED_WT:-/tmp/wt/mut}
+cd "$(dirname "$(readlink -f "$0")")/.." || exit 2
 if [ ! -d "$WT" ]; then git -C /repo worktree add -q "$WT" HEAD || exit 2; fi
 git -C "$WT" checkout -q --detach "$(git -C /repo rev-parse HEAD)" 2>/dev/null
 git -C "$WT" checkout -q -- . ; git -C "$WT" clean -fdq -e target
